@@ -59,6 +59,8 @@ fn check_write_file(outfile: &Path, output: Vec<u8>) -> anyhow::Result<()> {
             // avoid writing the file to leave the mtime intact
             // for tools which might use it to know when to
             // rebuild.
+            #[cfg(typeshare_verif)]
+            crate::verif::point("WriteSkip", &outfile.to_string_lossy(), "unchanged");
             info!("Skipping writing to {outfile:?} no changes");
             return Ok(());
         }
@@ -76,6 +78,8 @@ fn check_write_file(outfile: &Path, output: Vec<u8>) -> anyhow::Result<()> {
 
         fs::write(outfile, output)
             .with_context(|| format!("failed to write output: {}", outfile.to_string_lossy()))?;
+        #[cfg(typeshare_verif)]
+        crate::verif::point("Write", &outfile.to_string_lossy(), "written");
     }
     Ok(())
 }
